@@ -157,20 +157,20 @@ def generate(g: Gen):
     g.oblige("path", "With:raising-child-under-suppressing-manager", IH + WITH + [ex("body", blkN)], z3.Not(fall(n)), swith.body[-1].lineno)
 
     last = stmts[-1]
-    g.oblige("table", "default:other-statements-are-not-blocking", [], z3.BoolVal(ast.unparse(last) == "return False"), last.lineno)
+    g.oblige_text("table", "default:other-statements-are-not-blocking", ast.unparse(last) == "return False", last.lineno)
 
     # ---- _is_exception
     fe, te = find_def("core", "_is_exception")
     body = [s for s in fe.body if not (isinstance(s, ast.Expr) and isinstance(s.value, ast.Constant))]
     ok_raise = ast.unparse(body[0]) == "if isinstance(node, ast.Raise):\n    return True"
-    g.oblige("table", "_is_exception:Raise", [], z3.BoolVal(ok_raise), fe.lineno)
+    g.oblige_text("table", "_is_exception:Raise", ok_raise, fe.lineno)
     ok_assert = False
     if len(body) >= 2 and isinstance(body[1], ast.If) and ast.unparse(body[1].test) == "isinstance(node, ast.Assert)":
         t_ = body[1].body[0]
         ok_assert = isinstance(t_, ast.Try) and ast.unparse(t_.body[0]) == "return not literal_value(node.test)" and ast.unparse(t_.handlers[0].body[-1]) == "return False"
     # assert <constant falsy> always raises AssertionError (python -O is outside the model: stated)
-    g.oblige("table", "_is_exception:Assert-with-false-constant-test", [], z3.BoolVal(bool(ok_assert)), fe.lineno)
-    g.oblige("table", "_is_exception:default-False", [], z3.BoolVal(ast.unparse(body[-1]) == "return False"), fe.lineno)
+    g.oblige_text("table", "_is_exception:Assert-with-false-constant-test", bool(ok_assert), fe.lineno)
+    g.oblige_text("table", "_is_exception:default-False", ast.unparse(body[-1]) == "return False", fe.lineno)
     g.assumptions.add("control-flow axioms of If/While/For/With (contracts/x_is_blocking.py) are the spec; induction schema on AST height")
     g.assumptions.add("assert statements are not stripped (no python -O)")
     g.assumptions.add("_loop_may_be_left(node, types) == a break (/continue) of this very loop occurs in the body: its own unit core._loop_may_be_left")
